@@ -660,7 +660,17 @@ def r6_positional_arguments(ctx):
         ctx.check(R, key, ok, "; ".join(desc), (b, bb))
 
 
-RULES = [("C09.R1", r1_decoder_inputs), ("C09.R2", r2_primitive_table), ("C09.R3", r3_request_context), ("C09.R4", r4_no_shared_channel),
+
+def r7_every_framing_accepted(ctx):
+    """`every standards-conformant way of framing the body`: the body stream may refuse only on counted bytes / a sound
+    lower bound / a transport error, so chunked and length-less bodies are treated like Content-Length ones.  This is
+    C11.R6, re-evaluated here because its violation is a C09 violation too (seed C09-B)."""
+    from . import c11
+    from .lib_c01 import Renamed
+    c11.r6_only_counted_bytes_refuse(Renamed(ctx, "C09.R7", "a body is delivered or refused independently of how its length was declared"))
+
+
+RULES = [("C09.R7", r7_every_framing_accepted), ("C09.R1", r1_decoder_inputs), ("C09.R2", r2_primitive_table), ("C09.R3", r3_request_context), ("C09.R4", r4_no_shared_channel),
          ("C09.R5", r5_multipart_boundary), ("C09.R6", r6_positional_arguments)]
 
 _F5_NOW = """        let boundary =
